@@ -1,7 +1,10 @@
 _X = ('xfer', 24, 400)
 _A = ('amp', 40, 600)
+# 'the same on a new path after any address change': the path scenario's ledger is armed by the HARNESS' notion of a
+# validated address (Handshake packet / PATH_RESPONSE with the right token seen from it), not by the connection's flag
+_PV = ('pathv', 24, 300)
 PROPS = {
-    'C07': dict(sim=[_X, _A],
+    'C07': dict(sim=[_X, _A, _PV],
                 modelled='paths.rs anti_amplification_blocked (generated), the gated datagram loop of poll_transmit, crediting in handle_event/handle_coalesced/handle_first_packet, migrate (fresh path), Endpoint::stateless_reset size arithmetic and rate limit; every observed path transition (rx/tx) of the simulator is validated against the Lean model',
                 not_modelled='what the packet builder puts in a datagram; MTU probes / PATH_CHALLENGE to the previous path / off-path PATH_RESPONSE are sent outside the gated loop (observed by the simulator oracle, not in the model); short-Initial decision of Endpoint::handle'),
 }
